@@ -76,6 +76,7 @@ def run(prog: Program, rep: Report, tier: str) -> None:
                            'returns fresh storage on every call' if not roots else f"the buffer it hands out is or views {sorted(roots)}: the in-place elimination would modify the caller's tensor")
     rep.floor('C09-D1 thunks', n_thunks, 4)
     lu_fallback(rep, prog)
+    semiring_zero_tests(rep, prog)
     generic_elimination(rep, prog)
     transposes_of_matrices(rep, prog)
 
@@ -136,6 +137,37 @@ def lu_fallback(rep: Report, prog: Program) -> None:
         handlers = [n for n, nd in cfg.nodes.items() if nd.kind == 'except']
         okh = all(cfg.reaches(h, fb_n) or any(cfg.nodes[m].kind == 'raise' for m in cfg.reachable([h])) for h in handlers) and bool(handlers)
         rep.ob(rule, f.fq(), 'a failed torch.linalg.solve (RuntimeError) falls back to the generic solver', f.loc(), okh, '')
+
+
+def semiring_zero_tests(rep: Report, prog: Program) -> None:
+    """multi.py works in whatever semiring its operands carry: "this block is zero, skip it" must mean the semiring's zero (-inf in
+    the log and Viterbi semirings, where the numeric 0.0 is the semiring *one*).  A test of stored elements against the number zero
+    -- truthiness, .any()/.all(), count_nonzero, == 0 on `.physical` -- is right in the real and boolean semirings only.  The rule
+    has no instance on today's tree (kept alive by a synthetic positive example)."""
+    rule = 'C09-D5 semiring-zero tests'
+    rep.rule('C09-D5', 'no numeric-zero test on stored tensor elements in the semiring-generic block algebra of fggs/multi.py (any/all/count_nonzero/nonzero/== 0 on `.physical`)')
+
+    def numeric_tests(tree):
+        out = []
+        for x in ast.walk(tree):
+            if isinstance(x, ast.Call) and isinstance(x.func, ast.Attribute) and x.func.attr in ('any', 'all', 'count_nonzero', 'nonzero') and 'physical' in norm(x.func.value):
+                out.append(x)
+            if isinstance(x, ast.Compare) and len(x.ops) == 1 and isinstance(x.ops[0], (ast.Eq, ast.NotEq)) and 'physical' in norm(x.left) \
+                    and isinstance(x.comparators[0], ast.Constant) and x.comparators[0].value in (0, 0.0, False):
+                out.append(x)
+        return out
+    if len(numeric_tests(ast.parse("def f(b, z):\n    if not b[z].physical.any():\n        return None\n"))) != 1:
+        rep.error(f"{rule}: the synthetic positive example is no longer matched")
+    n_f = 0
+    for f in prog.module('fggs.multi').functions.values():
+        if f.is_lambda:
+            continue
+        n_f += 1
+        for t in numeric_tests(f.node) if f.parent is None else []:
+            rep.ob(rule, f.fq(), norm(t)[:80], f.loc(t), False,
+                   'tests stored elements against the number 0: in the log and Viterbi semirings 0.0 is the semiring one, so a block of ones is treated as a block of zeros')
+    rep.ob(rule, 'fggs.multi', 'no numeric-zero test on stored elements', 'fggs/multi.py:1', True, f"{n_f} functions examined")
+    rep.floor('C09-D5 functions', n_f, 10)
 
 
 def generic_elimination(rep: Report, prog: Program) -> None:
